@@ -54,7 +54,7 @@ def fmtDRes : DMap.Res → String
 
 def range (n : Nat) : List Nat := List.range n
 
-def dataOps : List String := ["c.put", "c.get", "c.getx", "c.del", "c.expire", "c.getput", "c.incr", "c.decr", "c.lock",
+def dataOps : List String := ["c.put", "c.get", "c.getx", "c.del", "c.expire", "c.getput", "c.incr", "c.decr", "c.lock", "c.lockw", "c.unlockx", "c.leasex",
   "c.unlock", "c.lease", "c.destroy", "c.pipeline"]
 
 def tokBytes (n : Nat) : Bytes := ("tok" ++ toString n).toUTF8.toList
@@ -138,6 +138,20 @@ def clusterStep (s : CSt) (now : Int) (op : String) (a : List String) : Option (
     match res with
     | .acquired => some ({ s with cl := cl', ntok := s.ntok + 1 }, s!"tok{s.ntok}")
     | r => some ({ s with cl := cl' }, fmtLock r)
+  | "c.lockw" =>
+    -- a waiting Lock: one attempt now, and (the key being held) the attempts after the clock advanced
+    let dm := (arg 2).toUTF8.toList
+    let k := unhx (arg 3)
+    let tmo := int (arg 4) * 1000000
+    let (cl1, res1) := DMap.lock s.cfg (s.route dm k) s.reach s.cl dm k (tokBytes s.ntok) tmo now
+    match res1 with
+    | .acquired => some ({ s with cl := cl1, ntok := s.ntok + 1 }, s!"tok{s.ntok}")
+    | .notAcquired =>
+      let (cl2, res2) := DMap.lock s.cfg (s.route dm k) s.reach cl1 dm k (tokBytes s.ntok) tmo (now + int (arg 6) * 1000000)
+      (match res2 with
+       | .acquired => some ({ s with cl := cl2, ntok := s.ntok + 1 }, s!"tok{s.ntok}")
+       | r => some ({ s with cl := cl2 }, fmtLock r))
+    | r => some ({ s with cl := cl1 }, fmtLock r)
   | "c.unlock" =>
     let dm := (arg 2).toUTF8.toList
     let k := unhx (arg 3)
@@ -150,6 +164,28 @@ def clusterStep (s : CSt) (now : Int) (op : String) (a : List String) : Option (
     let tok := if arg 4 == "forged" then "forged".toUTF8.toList else (arg 4).toUTF8.toList
     let (cl', res) := DMap.lease s.cfg (s.route dm k) s.reach s.cl dm k tok (int (arg 5) * 1000000) now
     some ({ s with cl := cl' }, fmtLock res)
+  | "c.unlockx" | "c.leasex" =>
+    -- <path> <i> <dmap> <key> <tok> [<ms>] -- <adv_ms> <path2> <i2> <timeout2_ms>: the second half runs after the
+    -- clock advanced and a competitor tried to take the lock (one attempt)
+    let dm := (arg 2).toUTF8.toList
+    let k := unhx (arg 3)
+    let tok := if arg 4 == "forged" then "forged".toUTF8.toList else (arg 4).toUTF8.toList
+    let isLease := op == "c.leasex"
+    let rest := (a.dropWhile (· != "--")).drop 1
+    let r := s.route dm k
+    let (c1, chk) := if isLease then DMap.leaseChk s.cfg r s.reach s.cl dm k tok now
+                     else DMap.unlockChk s.cfg r s.reach s.cl dm k tok now
+    match chk with
+    | some e => some ({ s with cl := c1 }, s!"{fmtLock e} inner=-")
+    | none =>
+      let now' := now + int (rest.getD 0 "0") * 1000000
+      let (c2, lres) := DMap.lock s.cfg r s.reach c1 dm k (tokBytes s.ntok) (int (rest.getD 3 "0") * 1000000) now'
+      let (ntok', inner) := match lres with
+        | .acquired => (s.ntok + 1, s!"tok{s.ntok}")
+        | e => (s.ntok, fmtLock e)
+      let (c3, res) := if isLease then DMap.leaseFin s.cfg r s.reach c2 dm k tok (int (arg 5) * 1000000) now'
+                       else DMap.unlockFin s.cfg r c2 dm k tok now'
+      some ({ s with cl := c3, ntok := ntok' }, s!"{fmtLock res} inner={inner}")
   | "c.destroy" =>
     let dm := (arg 2).toUTF8.toList
     some ({ s with cl := DMap.destroy s.cl dm }, "ok")
